@@ -27,7 +27,7 @@ def obligations(tier):
     from props.common import conc
     if not q:          # ~20 min / 8 GB: thorough tier only
       obs += conc('defer_barrier_vs_queuer', 'c13_defer_conc.c', [dict(fn='ta', slot=1), 'tb', 'r1', 'r2'], 3,
-                cflags=['-DURCU_VERIF_DEFER_QUEUE_SIZE=8'], pre=[('pro', 1)], post=[('epi', 1)], unwind=4, live=True,
+                cflags=['-DURCU_VERIF_DEFER_QUEUE_SIZE=8'], pre=[('pro', 1)], post=[('epi', 1)], unwind=4, live=True, timeout=3000,
                 desc='queuing thread (2 defer_rcu) vs rcu_defer_barrier() (= what the background reclaimer runs) vs two readers: a call runs once, in order, '
                      'only after the reader sections open at its defer_rcu have ended; everybody finishes',
                 wit=['second defer_rcu was called while reader 2 was inside its section'],
